@@ -28,6 +28,9 @@ func (e *Exec) mapKeySort(k types.Type) string {
 
 func (e *Exec) mapKeyTerm(k types.Type, term string) string {
 	if !isString(k) {
+		if !strings.Contains(term, "q.") {
+			e.sc.noteIdx(term, e.sc.sortOf(k)) // quantified map invariants are instantiated at the keys used
+		}
 		return term
 	}
 	if !e.sc.funs["str.id"] {
@@ -223,6 +226,7 @@ func (e *Exec) recvOp(st *State, x *ssa.UnOp) {
 	}
 	el := x.X.Type().Underlying().(*types.Chan).Elem()
 	v := e.freshVal(st, x.Name(), el)
+	e.chanClauses(st, "assume_recv", e.val(st, x.X), v, "true", x.Pos())
 	if x.CommaOk {
 		ok := e.sc.fresh(x.Name()+".ok", "Bool")
 		e.set(st, x, Val{T: x.Type(), Tup: []Val{v, {T: tBool, S: ok}}})
@@ -232,8 +236,52 @@ func (e *Exec) recvOp(st *State, x *ssa.UnOp) {
 }
 
 func (e *Exec) sendStmt(st *State, x *ssa.Send) {
+	e.chanClauses(st, "before_send", e.val(st, x.Chan), e.val(st, x.X), "true", x.Pos())
 	if e.eng.tmSend != nil {
 		e.eng.tmSend(e, st, x)
+	}
+}
+
+// chanClauses: `before_send expr` are obligations at every send of the function under contract
+// (plain or a select case, then under the condition that the case is chosen), `assume_recv expr`
+// assumptions at every receive (channel protocol facts proved at the senders), both over `ch`
+// (the channel) and `val` (the message) besides parameters and locals. A clause whose expression
+// does not type-check for this channel's element type does not apply to it.
+func (e *Exec) chanClauses(st *State, kind string, ch, val Val, cond string, pos token.Pos) {
+	if e.fc == nil || !e.ownCode() || len(e.fc.Lists[kind]) == 0 || ch.S == "" {
+		return
+	}
+	for i, cl := range e.fc.Lists[kind] {
+		c := e.specEnvLocals(st)
+		c.vars["ch"] = ch
+		if val.S != "" || val.A != nil || val.Tup != nil {
+			c.vars["val"] = val
+		}
+		c.where = fmt.Sprintf("%s:%d", cl.File, cl.Line)
+		t, err := c.evalBool(strings.TrimSpace(cl.Expr))
+		if err != nil {
+			continue
+		}
+		if e.chanHits == nil {
+			e.chanHits = map[string]int{}
+		}
+		e.chanHits[fmt.Sprintf("%s#%d", kind, i)]++
+		if kind == "assume_recv" {
+			e.assume(st, imp(cond, t))
+			e.libUsed["assume-recv:"+strings.TrimSpace(cl.Expr)] = true
+			continue
+		}
+		saved := e.propsDef
+		if len(cl.Props) > 0 {
+			e.propsDef = cl.Props
+		}
+		pcSaved := st.pc
+		if cond != "true" {
+			st.pc = e.sc.define("pc", "Bool", and(st.pc, cond))
+		}
+		e.check(st, "before-send", fmt.Sprintf("%d", i), t, pos)
+		st.pc = pcSaved
+		e.propsDef = saved
 	}
 }
 
@@ -267,9 +315,28 @@ func (e *Exec) selectStmt(st *State, x *ssa.Select) {
 			}
 			chosen := eq(idx, e.sc.idxLit(int64(i)))
 			if sst.Dir == types.SendOnly {
+				sv := e.val(st, sst.Send)
+				e.chanClauses(st, "before_send", ch, sv, chosen, x.Pos())
 				cnt := e.sendCount(st)
 				st.mem["ghost|send_count"] = e.sc.define("g.send_count", e.memSort["ghost|send_count"],
 					ite(chosen, fmt.Sprintf("(store %s %s %s)", cnt, ch.S, e.add(fmt.Sprintf("(select %s %s)", cnt, ch.S), e.sc.idxLit(1))), cnt))
+				if sv.S != "" {
+					el := sst.Chan.Type().Underlying().(*types.Chan).Elem()
+					svals := e.sendVals(st, el)
+					key := "ghost|send_val_" + sortTag(e.sc.sortOf(el))
+					st.mem[key] = e.sc.define("g.send_val", e.memSort[key], ite(chosen, fmt.Sprintf("(store %s %s %s)", svals, ch.S, sv.S), svals))
+				}
+			} else {
+				// the value received by this case is the (2+k)-th component of the select's result
+				k := 0
+				for j := 0; j < i; j++ {
+					if x.States[j].Dir == types.RecvOnly {
+						k++
+					}
+				}
+				if 2+k < len(vals) {
+					e.chanClauses(st, "assume_recv", ch, vals[2+k], chosen, x.Pos())
+				}
 			}
 			// receives chosen by a select are not counted (recvd() counts plain receives only)
 		}
